@@ -35,7 +35,7 @@ func init() {
 
 func (p *c17) Init(w *lib.Worker) error { return initModel() }
 
-var c17Roots = []string{"", "body", "a.b", "ünï", "root"}
+var c17Roots = []string{"", "body", "a.b", "ünï", "root", "r%s", "100%"}
 
 type step struct {
 	kind string // prop | pattern | additional | tuple
@@ -213,7 +213,7 @@ var c17Faults = []string{"type", "maximum", "minLength", "enum", "pattern", "req
 func (p *c17) singleFault(idx int, r *lib.Rand) lib.Case {
 	root := c17Roots[r.Intn(len(c17Roots))]
 	depth := r.Range(1, 5)
-	names := []string{"a", "b", "c", "foo", "bar", "x-1", "ünï", "n0", "items", "default", "é1"}
+	names := []string{"a", "b", "c", "foo", "bar", "x-1", "ünï", "n0", "items", "default", "é1", "50%d", "pct%", "%v"}
 	steps := make([]step, depth)
 	for i := range steps {
 		switch r.Intn(4) {
